@@ -3,7 +3,10 @@ import Model.Notifier
 open Proto Nt
 
 /-- the harness' panicking targets -/
-def pan (t : Nat) : Bool := t == 2 || t == 3
+def pan (t : Nat) : Bool := if t < 5 then t == 2 || t == 3 else t % 5 == 2
+
+/-- the harness' re-entrant target: executes the armed operation from inside its HandleNotification -/
+def reentrant : Nat := 6
 
 def nat? (s : String) : Option Nat := s.toNat?
 
@@ -20,7 +23,9 @@ def parseOp (ws : List String) : Option Op :=
   | ["start", n] => (nat? n).map .startBatch
   | ["end", n] => (nat? n).map .endBatch
   | ["notify", n, raw] => match nat? n, hexBytes? raw with | some n, some r => some (.notify n r) | _, _ => none
+  | ["notify", n, raw, _] => match nat? n, hexBytes? raw with | some n, some r => some (.notify n r) | _, _ => none
   | ["notifyd", n, raw] => match nat? n, hexBytes? raw with | some n, some r => some (.notify n r) | _, _ => none
+  | ["notifyd", n, raw, _] => match nat? n, hexBytes? raw with | some n, some r => some (.notify n r) | _, _ => none
   | _ => none
 
 def opNotifier : Op → Nat
@@ -46,10 +51,10 @@ def isRec : Event → Bool
   | .recovered .. => true
   | _ => false
 
-def render (evs : List Event) (s : NSt) : String :=
+def render (evs : List Event) (s : NSt) (countRecs : Bool := true) : String :=
   let calls := (evs.filter (fun e => !isRec e)).mergeSort evLe
   let toks := calls.map evTok
-  let recs := (evs.filter isRec).length
+  let recs := if countRecs then (evs.filter isRec).length else 0
   " ".intercalate ("order-ok" :: toks) ++ s!" | rec={recs} | L{s.level} E{if s.enabled then 1 else 0}"
 
 def strLe (a b : String) : Bool := a ≤ b
@@ -65,15 +70,41 @@ def dump (s : NSt) : String :=
   "P[" ++ " ".intercalate (prodL.mergeSort strLe) ++ "] N[" ++ " ".intercalate nameL ++ "] B[" ++ nats s.batch ++
     "] C[" ++ nats s.current ++ s!"] L{s.level} E{if s.enabled then 1 else 0}"
 
-def stepLine (w : World) (line : String) : World × String :=
+/-- operations the re-entrant target may perform (they cause no calls themselves) -/
+def armable : Op → Bool
+  | .register .. | .unregister .. | .merge .. | .setEnabled .. | .reset .. => true
+  | _ => false
+
+def handlesReentrant : Event → Bool
+  | .handle _ t _ _ => t == reentrant
+  | _ => false
+
+/-- driver state: the world and the armed operation of the re-entrant target -/
+structure DSt where
+  w : World := World.init
+  armed : Option Op := none
+
+/-- Transcription of re-entrancy: `NotifyWithData` computes the delivery list and releases its lock before the first
+    call, so an operation performed by a target from inside `HandleNotification` does not affect the current delivery and
+    takes effect as if it had been issued right after the notification: the driver composes `Nt.step` accordingly. -/
+def stepLine (d : DSt) (line : String) : DSt × String :=
   match words line with
-  | ["reset"] => (World.init, "reset")
-  | ["dump", n] => match nat? n with | some n => (w, dump (w n)) | none => (w, "bad-op")
+  | ["reset"] => ({}, "reset")
+  | ["dump", n] => match nat? n with | some n => (d, dump (d.w n)) | none => (d, "bad-op")
+  | "arm" :: n :: rest =>
+    match nat? n, parseOp rest with
+    | some n, some op => if armable op then ({ d with armed := some op }, render [] (d.w n) (n != 2)) else (d, "bad-op")
+    | _, _ => (d, "bad-op")
   | ws =>
     match parseOp ws with
-    | none => (w, "bad-op")
+    | none => (d, "bad-op")
     | some op =>
-      let r := Nt.step pan w op
-      (r.1, render r.2 (r.1 (opNotifier op)))
+      let r := Nt.step pan d.w op
+      let fired := r.2.any handlesReentrant
+      let (w', armed') := match fired, d.armed with
+        | true, some op' => ((Nt.step pan r.1 op').1, none)
+        | _, a => (r.1, a)
+      -- notifier 2 has a nil recovery handler: its reports are not observable
+      ({ w := w', armed := armed' }, render r.2 (w' (opNotifier op)) (opNotifier op != 2))
 
-def main : IO Unit := Proto.run stepLine World.init
+def main : IO Unit := Proto.run stepLine {}
